@@ -594,6 +594,26 @@ func (ia *IA) assign(s istate, v ssa.Value, r Itv, depth int) {
 		r = r.meet(old)
 	}
 	s[t] = r
+	// len(x[k:]) == len(x) - k for a slice or string x and a constant k: a bound on the
+	// length of the tail is a bound on the length of the whole
+	if lo, isLen := t.(lenOf); isLen {
+		if sl, ok := lo.V.(*ssa.Slice); ok && sl.High == nil && sl.Max == nil {
+			_, isPtr := sl.X.Type().Underlying().(*types.Pointer)
+			k, okK := int64(0), true
+			if sl.Low != nil {
+				li := ia.eval(sl.Low, s, 0)
+				k, okK = li.Lo, li.Lo == li.Hi && li.Lo >= 0
+			}
+			if !isPtr && okK {
+				tb := term(lenOf{Strip(sl.X)})
+				nr := Itv{satAdd(r.Lo, k), satAdd(r.Hi, k)}
+				if old, ok := s[tb]; ok {
+					nr = nr.meet(old)
+				}
+				s[tb] = nr
+			}
+		}
+	}
 	switch x := v.(type) {
 	case *ssa.Convert:
 		if isInteger(x.X.Type()) && isInteger(x.Type()) {
